@@ -191,7 +191,9 @@ def check_sequence(res, desc, tag):
 
 
 KROME_FIELDS = [("10", 10.0), ("1d4", 1e4), (">10", 10.0), (".GE.2.73d0", 2.73), ("<1e4", 1e4), (".LT.3d2", 300.0), (".LE.41000", 41000.0),
-                ("NONE", None), ("N", None), ("none", None), ("", None), ("N/A", None), ("2.5d2", 250.0), (".GT.1.5d1", 15.0)]
+                ("NONE", None), ("N", None), ("none", None), ("", None), ("N/A", None), ("2.5d2", 250.0), (".GT.1.5d1", 15.0),
+                # exponents with an explicit sign
+                (".LE.1.0d+4", 1e4), ("1e+16", 1e16), (">1.0d+3", 1e3), ("4.1E+04", 41000.0), ("1.0d-1", 0.1)]
 
 
 def check_krome(res, rng, tag):
